@@ -119,7 +119,14 @@ class State:
     def alloc_bound(self):
         return self.alloc_base + self.nalloc
 
+    _spec_refs = [0]
+
     def new_ref(self):
+        if self.pure:
+            # objects created while evaluating a specification (e.g. the list a spec-level split() denotes) are not program
+            # objects: they get unique negative references and never consume program allocation numbers
+            State._spec_refs[0] += 1
+            return z3.IntVal(-(100000 + State._spec_refs[0]))
         r = self.alloc_base + self.nalloc
         self.nalloc += 1
         return z3.simplify(r)
